@@ -63,6 +63,9 @@ impl img::DiskImage for DO {
         match addr {
             Block::D13(_) => Err(Box::new(img::Error::ImageTypeMismatch)),
             Block::DO([t,s]) => {
+                if t>=self.tracks as usize || s>=self.sectors as usize {
+                    return Err(Box::new(img::Error::SectorAccess));
+                }
                 let mut ans: Vec<u8> = Vec::new();
                 let offset = t*self.sectors as usize*SECTOR_SIZE + s*SECTOR_SIZE;
                 ans.append(&mut self.data[offset..offset+SECTOR_SIZE].to_vec());
@@ -72,6 +75,9 @@ impl img::DiskImage for DO {
                 let mut ans: Vec<u8> = Vec::new();
                 let ts_list = skew::ts_from_prodos_block(block,&self.kind)?;
                 for [t,s] in ts_list {
+                    if t>=self.tracks as usize || s>=self.sectors as usize {
+                        return Err(Box::new(img::Error::SectorAccess));
+                    }
                     let offset = t*self.sectors as usize*SECTOR_SIZE + s*SECTOR_SIZE;
                     ans.append(&mut self.data[offset..offset+SECTOR_SIZE].to_vec());    
                 }
@@ -80,6 +86,9 @@ impl img::DiskImage for DO {
             Block::CPM((_block,_bsh,_off)) => {
                 let mut ans: Vec<u8> = Vec::new();
                 let ts_list = addr.get_lsecs(32);
+                if ts_list.iter().any(|ts| ts[0]>=self.tracks as usize) {
+                    return Err(Box::new(img::Error::SectorAccess));
+                }
                 for ts in ts_list {
                     trace!("track {} lsec {}",ts[0],ts[1]);
                     let track = ts[0];
@@ -97,6 +106,9 @@ impl img::DiskImage for DO {
         match addr {
             Block::D13(_) => Err(Box::new(img::Error::ImageTypeMismatch)),
             Block::DO([t,s]) => {
+                if t>=self.tracks as usize || s>=self.sectors as usize {
+                    return Err(Box::new(img::Error::SectorAccess));
+                }
                 let padded = super::quantize_block(dat, SECTOR_SIZE);
                 let offset = t*self.sectors as usize*SECTOR_SIZE + s*SECTOR_SIZE;
                 self.data[offset..offset+SECTOR_SIZE].copy_from_slice(&padded);
@@ -105,6 +117,9 @@ impl img::DiskImage for DO {
             Block::PO(block) => {
                 let padded = super::quantize_block(dat, BLOCK_SIZE);
                 let ts_list = skew::ts_from_prodos_block(block,&self.kind)?;
+                if ts_list.iter().any(|[t,s]| *t>=self.tracks as usize || *s>=self.sectors as usize) {
+                    return Err(Box::new(img::Error::SectorAccess));
+                }
                 let mut src_offset = 0;
                 for [t,s] in ts_list {
                     let offset = t*self.sectors as usize*SECTOR_SIZE + s*SECTOR_SIZE;
@@ -116,6 +131,9 @@ impl img::DiskImage for DO {
             Block::CPM((_block,bsh,_off)) => {
                 let padded = super::quantize_block(dat, CPM_RECORD << bsh);
                 let ts_list = addr.get_lsecs(32);
+                if ts_list.iter().any(|ts| ts[0]>=self.tracks as usize) {
+                    return Err(Box::new(img::Error::SectorAccess));
+                }
                 let mut src_offset = 0;
                 for ts in ts_list {
                     trace!("track {} lsec {}",ts[0],ts[1]);
